@@ -2,6 +2,7 @@
      c14 sum|average|min|max|count <args…>     args: scalar tokens and arrays `a:r:c v…`
      c14 subtotal <int> <args…>
      c14 sumproduct <args…>
+     c14 echo <value>                           the value itself (expected value of an inner formula cell)
 -/
 import Pycel.Model.Proto
 import Pycel.Model.Aggregates
@@ -26,6 +27,10 @@ def handle : List String → String
       | .badNumber => "!exc:bare:ValueError"
       | .unmodelled name => "!unmodelled:" ++ name
     | _, _ => "!bad-arg"
+  | "c14" :: "echo" :: [t] =>
+    match Val.dec? t with
+    | some v => v.enc
+    | none => "!bad-arg"
   | "c14" :: "sumproduct" :: rest =>
     match decArgs? rest with
     | some args => (sumproduct args).enc
